@@ -288,7 +288,11 @@ def r_nvra_glue(model, rep):
     cur = orig
     for ev in sorted(st, key=lambda e: e.seq):
         cur = T.subst(ev.value, lambda x, c=cur: c if x == orig else None)
-    ok = bool(st) and cur == ("call", ("global", "int"), (("boolop", "or", (orig, ("const", 0))),), ()) \
+    # ... evaluated per scenario: a matched epoch (a non-empty digit string) becomes int(<epoch>), a missing one (None) becomes 0
+    intc = lambda x: ("call", ("global", "int"), (x,), ())
+    sc_g, sc_m = facts.Scenario(cx, atoms={orig: True}), facts.Scenario(cx, atoms={orig: False})
+    given, missing = sc_g.term(cur), sc_m.term(cur)
+    ok = bool(st) and given == sc_g.term(intc(orig)) and missing in (("const", 0), intc(("const", 0))) \
         and not any(g for ev in st for g in T.guard_tests(ev) if not _establishes_non_none(g, mt))
     rep.ob("R-NVRA-GLUE", "parse_nvra:epoch-default-int", ok, site=cx.site(f.node),
            msg="" if ok else "epoch must default to 0 and then be converted with int()")
